@@ -172,6 +172,27 @@ def python_level(task: dict) -> dict:
                 again = readers.read_ids(ds, "rust", "train", repeat=False, shuffle=0, file_parallelism=T)
                 if again != ref:
                     out["problems"].append(("after-drop", f"a new iterator after an early drop yields {again}"))
+        # iterators whose lifetimes overlap without being nested: A opened, B opened, A finished, C opened while B is
+        # still open - every pass must still equal the Python reader's
+        for T in task["threads"][:2]:
+            def mk():
+                return readers.iterate(ds, "rust", "train", repeat=False, shuffle=0, file_parallelism=T)
+            try:
+                a, b = mk(), mk()
+                ga, gb = [readers.ex_id(next(a))], [readers.ex_id(next(b))] if n_ex >= 1 else []
+                ga += [readers.ex_id(e) for e in a]
+                c = mk()
+                gc = [readers.ex_id(next(c))]
+                gb += [readers.ex_id(e) for e in b]
+                gc += [readers.ex_id(e) for e in c]
+                out["runs"] += 3
+                for nm, g in (("A", ga), ("B", gb), ("C", gc)):
+                    if g != ref:
+                        out["problems"].append(("overlapping", f"overlapping iterators ({T} threads): pass {nm} yields "
+                                                f"{g}, python {ref}"))
+            except BaseException as exc:  # pylint: disable=broad-except
+                out["problems"].append(("overlapping", f"overlapping iterators ({T} threads) raised "
+                                        f"{type(exc).__name__}: {str(exc)[:160]}"))
         out["sample"] = {"compression": comp, "shards": nshards, "examples": n_ex, "threads": task["threads"]}
     except Exception:  # pylint: disable=broad-except
         out["error"] = traceback.format_exc()
